@@ -18,9 +18,12 @@
 (* can evaluate them on OBSERVED outputs and report which clause the real code broke.            *)
 (*                                                                                              *)
 (* All indices are the real 0-based ones; sequences are 1-based, hence the `+ 1`s.               *)
-(*   lay = [n, k, fo, fa, tag]    n candidates; k[c+1] flips authored by candidate c (0 = not an  *)
+(*   lay = [n, k, fo, fa, kl, tag] n candidates; k[c+1] flips authored by candidate c (0 = not an *)
 (*                                author); fo[c+1] = the (global) indices of c's flips;          *)
 (*                                fa[f+1] = author of flip f (Len(fa) = number of flips);        *)
+(*                                kl[c+1] = 0: the state holds a usable public key of c,         *)
+(*                                1: no public key (only an activation sets it), 2: malformed    *)
+(*                                bytes -- a KEY-LESS candidate: nothing can be encrypted for it *)
 (*                                tag = identity of the concrete candidates/flips (addresses,    *)
 (*                                cids) behind the layout                                        *)
 (*   o   = [apc, cpa, short, long]  per candidate (position c+1): authorsPerCandidate[c],        *)
@@ -40,10 +43,16 @@ FlipIds(lay) == 0..(NF(lay) - 1)
 Author(lay, f) == lay.fa[f + 1]
 IsAuthor(lay, c) == K(lay, c) > 0
 FlipsOf(lay, a) == ToSet(lay.fo[a + 1])
+Keyless(lay, c) == lay.kl[c + 1] # 0
+\* how a recipient can be recognised from the public key handed to the packager: candidates without
+\* any key are indistinguishable from each other (all written -2)
+NoKey == -2
+Canon(lay, c) == IF c \in Cands(lay) /\ lay.kl[c + 1] = 1 THEN NoKey ELSE c
 
 \* fo and fa are inverse to each other
 LayoutOK(lay) ==
     /\ lay.n >= 0 /\ Len(lay.k) = lay.n /\ Len(lay.fo) = lay.n
+    /\ Len(lay.kl) = lay.n /\ \A c \in 1..lay.n : lay.kl[c] \in {0, 1, 2}
     /\ \A c \in 1..lay.n : /\ lay.k[c] >= 0 /\ Len(lay.fo[c]) = lay.k[c] /\ NoDupSeq(lay.fo[c])
                             /\ \A i \in 1..Len(lay.fo[c]) : lay.fo[c][i] \in FlipIds(lay) /\ lay.fa[lay.fo[c][i] + 1] = c - 1
     /\ \A f \in 1..Len(lay.fa) : lay.fa[f] \in Cands(lay) /\ (f - 1) \in ToSet(lay.fo[lay.fa[f] + 1])
@@ -51,9 +60,10 @@ LayoutOK(lay) ==
 (* the layout as the code's own structures describe it agrees with the identities and flips that *)
 (* exist: s.n candidates, s.auth = IsAuthor flags, s.fpa = flipsPerAuthor (as flip indices),       *)
 (* s.fam = flipAuthorMap (author per flip), s.cids = the flip list is exactly the set of flips of  *)
-(* the shard's candidates                                                                        *)
+(* the shard's candidates, s.kl = what the candidates' PubKey fields hold (0 the identity's key,  *)
+(* 1 nothing, 2 the malformed bytes of the state, 3 anything else)                               *)
 LayoutSeen(lay, s) ==
-    /\ s.n = lay.n /\ s.cids = TRUE /\ s.fam = lay.fa
+    /\ s.n = lay.n /\ s.cids = TRUE /\ s.fam = lay.fa /\ s.kl = lay.kl
     /\ Len(s.auth) = lay.n /\ \A i \in 1..Len(s.auth) : s.auth[i] = (lay.k[i] > 0)
     /\ Len(s.fpa) = lay.n /\ \A i \in 1..Len(s.fpa) : Len(s.fpa[i]) = lay.k[i] /\ ToSet(s.fpa[i]) = ToSet(lay.fo[i])
 
@@ -142,17 +152,22 @@ Deterministic(mem, lay, q, seed, o) ==
 ---------------------------------------------------------------------------
 (* key package of author a.                                                                     *)
 (*   has    : the author obtained a recipient list (PrivateEncryptionKeyCandidates)               *)
-(*   recips : candidate index behind every public key of that list, in package order            *)
+(*   recips : candidate behind every public key of that list, in package order (NoKey for an     *)
+(*            empty key)                                                                        *)
 (*   ext    : set of [idx, who, res]: entry idx extracted from the encrypted package and         *)
 (*            decrypted with candidate who's key: "ok" (the author's private flip key came out), *)
 (*            "fail" (an entry came out, who cannot decrypt it), "err" (no such entry)           *)
 (*   pub    : the key pool accepted the author's public flip key and key package (nobody can     *)
 (*            extract anything from a package the pool refuses); size = bytes of the package     *)
+(* Entry i of the package belongs to recipient i of the list WHATEVER the keys of the earlier    *)
+(* recipients look like: a key-less recipient keeps its position (its entry decrypts for nobody) *)
+(* and every other recipient finds an entry it can decrypt at its own position.                  *)
 MaxPackageSize == 1024 * 100   \* mempool.maxPrivateKeysPackageDataSize; only used to NAME the way pub fails
 PackageVerdict(lay, o, a, has, recips, ext, pub, size) ==
-    If(has = (o.cpa[a + 1] # <<>>) /\ (has => ToSet(recips) = RecSet(o, a)), "Recipients")
-    \cup If(\A e \in ext : /\ (e.res = "ok") = (e.idx >= 0 /\ e.idx < Len(recips) /\ recips[e.idx + 1] = e.who)
-                           /\ (e.res = "err") = ~(e.idx >= 0 /\ e.idx < Len(recips)), "PackageEntry")
+    If(has = (o.cpa[a + 1] # <<>>) /\ (has => ToSet(recips) = {Canon(lay, c) : c \in RecSet(o, a)}), "Recipients")
+    \cup If(\A e \in ext : LET inr == e.idx >= 0 /\ e.idx < Len(recips) IN
+                           /\ (e.res = "ok") = (inr /\ recips[e.idx + 1] = e.who /\ e.who \in Cands(lay) /\ ~Keyless(lay, e.who))
+                           /\ (e.res = "err") = ~inr, "PackageEntry")
     \cup If(has => pub, IF size > MaxPackageSize THEN "PackagePublished:over-size-limit" ELSE "PackagePublished")
 
 (* candidate c as a solver.                                                                     *)
@@ -160,6 +175,8 @@ PackageVerdict(lay, o, a, has, recips, ext, pub, size) ==
 (*   tries  : set of [f, idx, at, res]: for flip f, idx = index of c in the package of f's       *)
 (*            author (-1 = none), at = candidate whose key sits at that index, res = "ok" iff c  *)
 (*            obtained the author's private flip key                                            *)
+(* A key-less candidate cannot decrypt anything (nothing was encrypted for it): it is exempt     *)
+(* from KeyReach / AssignedDecrypts; its index is still defined iff it is a recipient.           *)
 (*   skip   : authors whose package the pool refused (reported by PackagePublished); the reach  *)
 (*            clauses are not evaluated for their flips                                          *)
 SolveVerdict(lay, o, c, ss, sl, tries, skip) ==
@@ -169,10 +186,10 @@ SolveVerdict(lay, o, c, ss, sl, tries, skip) ==
     If(IF NF(lay) = 0 THEN ss = <<>> /\ sl = <<>> ELSE ss = o.short[c + 1] /\ sl = o.long[c + 1], "SolveMatches")
     \cup If(\A t \in tries : t.f \in FlipIds(lay), "TryRange")
     \cup (IF \E t \in tries : t.f \notin FlipIds(lay) THEN {} ELSE
-          If(\A t \in tries : (t.idx # -1) = inR(t) /\ (t.idx # -1 => t.at = c), "PkgIndex")
-          \cup If(\A t \in tries : (inR(t) /\ Author(lay, t.f) \notin skip) => t.res = "ok", "KeyReach")
-          \cup If(\A t \in tries : ~inR(t) => t.res # "ok", "KeyLeak")
-          \cup If(\A f \in assigned : (f \in FlipIds(lay) /\ Author(lay, f) \in AuthSet(o, c) /\ Author(lay, f) \notin skip)
+          If(\A t \in tries : (t.idx # -1) = inR(t) /\ (t.idx # -1 => t.at = Canon(lay, c)), "PkgIndex")
+          \cup If(\A t \in tries : (inR(t) /\ Author(lay, t.f) \notin skip /\ ~Keyless(lay, c)) => t.res = "ok", "KeyReach")
+          \cup If(\A t \in tries : (~inR(t) \/ Keyless(lay, c)) => t.res # "ok", "KeyLeak")
+          \cup If(\A f \in assigned : (f \in FlipIds(lay) /\ Author(lay, f) \in AuthSet(o, c) /\ Author(lay, f) \notin skip /\ ~Keyless(lay, c))
                                         => \E t \in tries : t.f = f /\ t.res = "ok", "AssignedDecrypts"))
 
 ---------------------------------------------------------------------------
@@ -188,7 +205,18 @@ EvalCover(lay, q, o) ==
     \cup (IF \E c \in Cands(lay) : c \in AuthSet(o, c) THEN {"own_flip"} ELSE {})
     \cup (IF \E c \in Cands(lay) : ~NoDupSeq(o.cpa[c + 1]) THEN {"repeated_recipient"} ELSE {})
     \cup (IF \E c \in Cands(lay) : Len(o.cpa[c + 1]) >= 13 /\ NoDupSeq(o.cpa[c + 1]) THEN {"topped_up"} ELSE {})
+\* where the key-less recipients sit in a recipient list
+PackageCover(lay, recips) ==
+    LET kp == {i \in 1..Len(recips) : recips[i] = NoKey \/ (recips[i] \in Cands(lay) /\ Keyless(lay, recips[i]))}
+        vp == (1..Len(recips)) \ kp
+    IN (IF kp # {} /\ vp # {} /\ 1 \in kp THEN {"pkg_keyless_first"} ELSE {})
+       \cup (IF \E i \in kp : (\E j \in vp : j < i) /\ (\E j \in vp : j > i) THEN {"pkg_keyless_middle"} ELSE {})
+       \cup (IF kp # {} /\ vp # {} /\ Len(recips) \in kp THEN {"pkg_keyless_last"} ELSE {})
+       \cup (IF vp # {} /\ Cardinality({recips[i] : i \in kp}) >= 2 THEN {"pkg_keyless_several"} ELSE {})
+       \cup (IF \E i \in kp : recips[i] = NoKey THEN {"pkg_keyless_empty"} ELSE {})
+       \cup (IF \E i \in kp : recips[i] # NoKey THEN {"pkg_keyless_malformed"} ELSE {})
 SolveCover(lay, o, c, tries) ==
+    (IF Keyless(lay, c) /\ tries # {} THEN {"solve_keyless"} ELSE {}) \cup
     (IF \E t \in tries : t.f \in FlipIds(lay) /\ c \in RecSet(o, Author(lay, t.f)) THEN {"try_recipient"} ELSE {})
     \cup (IF \E t \in tries : t.f \in FlipIds(lay) /\ c \notin RecSet(o, Author(lay, t.f)) THEN {"try_non_recipient"} ELSE {})
 
@@ -197,7 +225,7 @@ SolveCover(lay, o, c, tries) ==
 VARIABLES cur,     \* the last lottery run [lay, q, seed, out], or NoRun
           memo     \* set of runs seen so far (determinism)
 lvars == <<cur, memo>>
-NoRun == [lay |-> [n |-> 0, k |-> <<>>, fo |-> <<>>, fa |-> <<>>, tag |-> ""], q |-> 0, seed |-> "",
+NoRun == [lay |-> [n |-> 0, k |-> <<>>, fo |-> <<>>, fa |-> <<>>, kl |-> <<>>, tag |-> ""], q |-> 0, seed |-> "",
           out |-> [apc |-> <<>>, cpa |-> <<>>, short |-> <<>>, long |-> <<>>]]
 
 LInit == cur = NoRun /\ memo = {}
